@@ -27,6 +27,8 @@ Apply(s, st) ==
     [] st.op = "putdir" -> PutDir(s, st.path)
     [] st.op = "putfile" -> PutFile(s, st.path, st.content)
     [] st.op = "rm" -> RemovePath(s, st.path)
+    [] st.op = "swapout" -> SwapOut(s, st.path)
+    [] st.op = "swapin" -> SwapIn(s, st.path)
 
 \* U.follow[i] = the set of step indices allowed after step i (0 = at the start); the generator of
 \* the alphabet uses it to place an obstacle, the failing call, the removal and the retry in order
@@ -38,6 +40,7 @@ PathFree(s, p) == ~\E x \in DOMAIN s.files \cup s.dirs : Len(x) >= Len(p) /\ Sub
 
 Do(i) == /\ Len(hist) < MaxLen
          /\ U.calls[i].op \in {"putdir", "putfile"} => PathFree(S, U.calls[i].path)
+         /\ U.calls[i].op = "swapout" => HasFile(S, U.calls[i].path)      \* only a file that exists is moved aside
          /\ LET s2 == Apply(S, U.calls[i]) IN
             /\ S' = s2
             /\ rets' = Append(rets, IF U.calls[i].op = "call" THEN s2.thr[1].ret ELSE "Fs")
